@@ -527,8 +527,15 @@ def run(ctx):
         labels[lab] = labels.get(lab, 0) + 1
         for cause, msg in bad:
             viols.append({"cause": cause, "msg": msg, "case": {"popen": [list(a[0]), list(a[1])]}})
-    cov = {"popen_live_sequences": len(pc), "pid_reuse_sequences": len(rc_),
-           "evaluations": len(sc) + len(ps) + len(pc) + len(rc_), "distinct_nontrivial": len({repr(a) for a in sc}) + len({repr(a) for a in ps}) + len(pc),
+    # schedule part: one Process object, thread A inside a blocking wait(), thread B asking with a timeout (vf/checks/c15s.py)
+    sres = {"violations": [], "coverage": {"executions": 0}}
+    if not ctx.alt:
+        from vf.checks import c15s
+        ctx.close()
+        sres = c15s.run_s(ctx)
+        viols += sres["violations"]
+    cov = {"popen_live_sequences": len(pc), "pid_reuse_sequences": len(rc_), "schedules": sres["coverage"],
+           "evaluations": len(sc) + len(ps) + len(pc) + len(rc_) + sres["coverage"]["executions"], "distinct_nontrivial": len({repr(a) for a in sc}) + len({repr(a) for a in ps}) + len(pc),
            "rule": "one evaluation = one execution of Process.wait()/wait_procs() in virtual time for one (subject kind, timeout, exit "
                    "instant, EINTR set, sleep overshoot) / (process kinds, exit-instant vector, timeout, callback); exit instants cover "
                    "every polling instant of the dry run, every midpoint and the deadline neighbourhood; distinct by construction",
@@ -540,6 +547,9 @@ def run(ctx):
 
 
 def replay(ctx, case):
+    if isinstance(case, dict) and case.get("part") == "S":
+        from vf.checks import c15s
+        return c15s.replay_s(ctx, case)
     if "reuse" in case:
         bad, _ = run_reuse(tuple(case["reuse"]))
         return {"violated": bool(bad), "viols": bad}
